@@ -63,12 +63,14 @@ VARIABLES phase,     \* "fresh" | "live" | "failedLate" | "destroyed"
           tags,      \* registered tags
           handles,   \* obtained handles
           hooks,     \* hooks currently installed
+          props,     \* which configuration's global properties (bufferCap, enableCaller) are in force:
+                     \* "-" (defaults) | "A" | "B"; they are process-wide and survive Destroy
           hist       \* sequence of [op, arg, exp]
-vars == <<phase, cfg, tags, handles, hooks, hist>>
+vars == <<phase, cfg, tags, handles, hooks, props, hist>>
 
 NoCfg == phase \in {"fresh", "destroyed"}
 
-Rec(op, arg, exp) == hist' = Append(hist, [op |-> op, arg |-> arg, exp |-> exp, ph |-> phase, cfg |-> cfg])
+Rec(op, arg, exp) == hist' = Append(hist, [op |-> op, arg |-> arg, exp |-> exp, ph |-> phase, cfg |-> cfg, props |-> props])
 
 (******************************** Refresh **********************************)
 HandlesKnown(c) == \A h \in handles : Named(c, h) # ""
@@ -76,25 +78,25 @@ HandlesKnown(c) == \A h \in handles : Named(c, h) # ""
 RefreshValid(c) ==
   /\ "Refresh" \o c \in Ops
   /\ CASE phase = "live" ->
-            /\ Rec("Refresh", c, "err") /\ UNCHANGED <<phase, cfg, tags, handles, hooks>>
+            /\ Rec("Refresh", c, "err") /\ UNCHANGED <<phase, cfg, tags, handles, hooks, props>>
        [] phase = "failedLate" ->                      \* silent: accepted or rejected
-            /\ Rec("Refresh", c, "any") /\ UNCHANGED <<phase, cfg, tags, handles, hooks>>
+            /\ Rec("Refresh", c, "any") /\ props' = "?" /\ UNCHANGED <<phase, cfg, tags, handles, hooks>>
        [] NoCfg /\ HandlesKnown(c) ->
-            /\ phase' = "live" /\ cfg' = c
+            /\ phase' = "live" /\ cfg' = c /\ props' = c
             /\ Rec("Refresh", c, "ok") /\ UNCHANGED <<tags, handles, hooks>>
        [] OTHER ->                                     \* a requested handle name is not configured
-            /\ phase' = "failedLate" /\ cfg' = "-"
+            /\ phase' = "failedLate" /\ cfg' = "-" /\ props' = "?"     \* fails before or after injection: silent
             /\ Rec("Refresh", c, "err") /\ UNCHANGED <<tags, handles, hooks>>
 
 RefreshBadEarly ==       \* rejected before anything is touched (unparsable map, no appender section)
   /\ "RefreshBadEarly" \in Ops
   /\ Rec("Refresh", "badEarly", "err")
-  /\ UNCHANGED <<phase, cfg, tags, handles, hooks>>
+  /\ UNCHANGED <<phase, cfg, tags, handles, hooks, props>>
 
 RefreshBadLate ==        \* unknown plugin type, start failure, bad property value
   /\ "RefreshBadLate" \in Ops
   /\ Rec("Refresh", "badLate", "err")
-  /\ IF NoCfg THEN phase' = "failedLate" /\ cfg' = "-" ELSE UNCHANGED <<phase, cfg>>
+  /\ IF NoCfg THEN phase' = "failedLate" /\ cfg' = "-" /\ props' = "?" ELSE UNCHANGED <<phase, cfg, props>>
   /\ UNCHANGED <<tags, handles, hooks>>
 
 Destroy ==
@@ -102,7 +104,7 @@ Destroy ==
   /\ Rec("Destroy", "", "ok")
   /\ IF phase \in {"live", "failedLate"} THEN phase' = "destroyed" /\ cfg' = "-"
      ELSE UNCHANGED <<phase, cfg>>
-  /\ UNCHANGED <<tags, handles, hooks>>
+  /\ UNCHANGED <<tags, handles, hooks, props>>
 
 (******************************** logging **********************************)
 \* destination of an event: a sink prefix, "none" (level disabled) or "any" (property silent)
@@ -124,7 +126,7 @@ Log(e, t, L) ==
                         ELSE IF EventDest(t, L) = "any" THEN "any"
                         ELSE IF Emitted(t, L) THEN "once" ELSE "never",
           hooks |-> hooks])
-  /\ UNCHANGED <<phase, cfg, tags, handles, hooks>>
+  /\ UNCHANGED <<phase, cfg, tags, handles, hooks, props>>
 
 WriteDest(h) ==
   CASE phase = "failedLate" -> "any"
@@ -134,7 +136,7 @@ WriteDest(h) ==
 Write(h) ==
   /\ "Write" \in Ops /\ h \in handles
   /\ Rec("Write", h, [dest |-> WriteDest(h)])       \* every appender of that logger, full length
-  /\ UNCHANGED <<phase, cfg, tags, handles, hooks>>
+  /\ UNCHANGED <<phase, cfg, tags, handles, hooks, props>>
 
 (****************************** registration *******************************)
 Register(op, x) == CASE phase = "live" -> Rec(op, x, "panic")
@@ -145,22 +147,22 @@ RegisterTag(t) ==
   /\ "RegisterTag" \in Ops
   /\ Register("RegisterTag", t)
   /\ tags' = IF NoCfg THEN tags \cup {t} ELSE tags
-  /\ UNCHANGED <<phase, cfg, handles, hooks>>
+  /\ UNCHANGED <<phase, cfg, handles, hooks, props>>
 
 GetHandle(h) ==
   /\ "GetHandle" \in Ops
   /\ Register("GetHandle", h)
   /\ handles' = IF NoCfg THEN handles \cup {h} ELSE handles
-  /\ UNCHANGED <<phase, cfg, tags, hooks>>
+  /\ UNCHANGED <<phase, cfg, tags, hooks, props>>
 
 SetHooks(S) ==
   /\ "SetHooks" \in Ops /\ S # hooks
   /\ Rec("SetHooks", S, "ok") /\ hooks' = S
-  /\ UNCHANGED <<phase, cfg, tags, handles>>
+  /\ UNCHANGED <<phase, cfg, tags, handles, props>>
 
 (********************************* spec ************************************)
 Init == /\ phase = "fresh" /\ cfg = "-" /\ tags = {T1, T2} /\ handles = {H1}
-        /\ hooks = {} /\ hist = <<>>
+        /\ hooks = {} /\ props = "-" /\ hist = <<>>
 
 Next == /\ Len(hist) < MaxLen
         /\ \/ \E c \in {"A", "B"} : RefreshValid(c)
@@ -181,10 +183,10 @@ TypeOK == /\ phase \in {"fresh", "live", "failedLate", "destroyed"}
 \* C16 as action properties over the model itself
 SecondRefreshRejected ==
   [][ (phase = "live" /\ hist' # hist /\ hist'[Len(hist')].op = "Refresh")
-        => (hist'[Len(hist')].exp = "err" /\ phase' = "live" /\ cfg' = cfg) ]_vars
+        => (hist'[Len(hist')].exp = "err" /\ phase' = "live" /\ cfg' = cfg /\ props' = props) ]_vars
 DestroyIdempotent ==
   [][ (phase = "destroyed" /\ hist' # hist /\ hist'[Len(hist')].op = "Destroy")
-        => UNCHANGED <<phase, cfg, tags, handles>> ]_vars
+        => UNCHANGED <<phase, cfg, tags, handles, props>> ]_vars
 RegistrationOnlyWithoutLiveCfg ==
   [][ (tags' # tags \/ handles' # handles) => NoCfg ]_vars
 LiveHandlesAreConfigured == phase = "live" => \A h \in handles : Named(cfg, h) # ""
